@@ -228,4 +228,27 @@ Proof.
   destruct (N.eqb_spec 0 k2); [lia|]. f_equal. auto.
 Qed.
 
+
+(* ---- serase ---- *)
+Lemma serase_lb : forall k m, lb k m -> serase k m = m.
+Proof.
+  intros k m L. induction m as [|[k' v'] r IH]; [reflexivity|]. inversion L; subst. cbn [fst] in *.
+  cbn [serase]. destruct (N.eqb_spec k k'); [lia|]. f_equal. apply IH. eapply lb_weaken; [|eassumption].
+  lia.
+Qed.
+
+Lemma serase0_drop0 : forall m, ssorted m -> serase 0 m = drop0 m.
+Proof.
+  intros [|[k' v'] r] S; [reflexivity|]. destruct S as [L S]. destruct k' as [|p].
+  - reflexivity.
+  - cbn [drop0]. apply serase_lb. constructor; [cbn; lia|].
+    eapply lb_weaken; [|exact L]. lia.
+Qed.
+
+Lemma drop0_id : forall m, sfind 0 m = None -> drop0 m = m.
+Proof. intros [|[[|p] v] r] H; try reflexivity. cbn in H. discriminate. Qed.
+
+Lemma ssorted_drop0' : forall m, ssorted m -> ssorted (drop0 m).
+Proof. intros [|[[|p] v] r] S; cbn [drop0]; auto. destruct S; auto. Qed.
+
 End Gen.
